@@ -32,7 +32,7 @@ KMAX = 1e8
 
 def floors(tier):
     return {"gcp_judged": 3000, "outward_on_bound": 800, "breakpoints_crossed_inputs": 800, "c_checked": 1500,
-            "intercepted_calls": 200, "tie_inputs": 600, "inputs_with_theta_exactly_one": 40, "runs_with_objective_redefined": 40, "__nontrivial__": 200}
+            "intercepted_calls": 200, "tie_inputs": 600, "inputs_with_theta_exactly_one": 40, "inputs_with_empty_memory_and_theta_not_one": 100, "runs_with_objective_redefined": 40, "__nontrivial__": 200}
 
 
 def exhaustive(tier):
@@ -366,6 +366,11 @@ def run(spec):
                 mats, B = mm
                 if unit and mats.theta == 1.0 and has_pairs(mats):
                     out.count("inputs_with_theta_exactly_one")
+                if not has_pairs(mats) and rng.random() < 0.6:
+                    # an empty memory whose scaling is not 1 (a model theta*I is a positive-definite limited-memory model like any other)
+                    mats.theta = float(gen.pick(rng, [0.25, 0.5, 3.0, 17.5, 1e3]))
+                    B = mats.theta * np.eye(n)
+                    out.count("inputs_with_empty_memory_and_theta_not_one")
                 lb, ub = gen.rand_box(rng, n, gen.pick(rng, ["mixed", "boxed", "narrow", "lower", "upper", "none", "boxed_degenerate"]))
                 x = gen.rand_x0(rng, lb, ub, gen.pick(rng, ["interior", "face", "vertex"]))
                 g = rng.standard_normal(n) * np.exp(rng.uniform(-2, 3)) * scale
